@@ -27,7 +27,7 @@ from ..core import Rule, AnalysisError, node_src
 from ..engine import cguard, cexpr
 from ..engine.cutil import strip_c_comments, match_paren, split_args
 from ..engine.pyindex import walk_no_nested, is_self_attr
-from .pC37 import local_assigns, deref, label_kind, inline_helpers
+from .pC37 import local_assigns, deref, inline_helpers
 from .pC45 import trace_sites, EVENT_METHODS, GEN_MODULES
 from . import sC45
 
@@ -144,28 +144,55 @@ def reach(body, pos, env):
     return v
 
 
+def _conds_hold(conds, env):
+    """can the preprocessor condition chain of a definition hold under env?  (False only when a condition is decided the other way)"""
+    for c in conds or ():
+        m = re.match(r'\s*(if|elif|ifdef|ifndef)\s+(.*?)(;\s*else\s*)?$', c.strip())
+        if not m or m.group(1) != 'if':
+            continue
+        try:
+            v = sC45._tri(cexpr.parse(m.group(2).split(';')[0]), env)
+        except Exception:
+            v = None
+        if v is None:
+            continue
+        if v == bool(m.group(3)):
+            return False
+    return True
+
+
+def _callable_defs(ctx, name, env):
+    """[(parameter names, body)] of the Profile.c functions / function-like macros called `name` that can be active under env"""
+    funcs, _ = profile_functions(ctx)
+    out = list(funcs.get(name, []))
+    for d in ctx.cat.decls.get(name, []):
+        if d.file == 'Profile.c' and d.kind == 'macro' and d.params is not None and _conds_hold(d.conds, env):
+            out.append(([_pname(p_) for p_ in d.params], strip_c_comments(d.body or '')))
+    return out
+
+
 def delivers(body, env, ctx=None, depth=0):
     """may a delivering call of the body execute under the partial assignment env?  (None when the body has no delivering call).  Helper
-    functions of Profile.c are followed: arguments that are variables of env or integer literals are bound to the helper's parameters."""
-    funcs, aliases = profile_functions(ctx) if ctx is not None else ({}, {})
+    functions and function-like macros of Profile.c are followed: arguments that are variables of env or integer literals are bound to the
+    callee's parameters; a callee that cannot be resolved counts as delivering when its name says so (sC45.DELIVER)."""
+    aliases = profile_functions(ctx)[1] if ctx is not None else {}
     body = _expand_aliases(body, env, aliases)
-    inner = depth > 0
     sites = []
     for c, off in sC45.c_callees(body):
-        if TRUE_DELIVERY.match(c) or (c in funcs and depth < 2) or (not inner and sC45.DELIVER.match(c)):
-            sites.append((c, off))
+        defs = _callable_defs(ctx, c, env) if ctx is not None and depth < 3 and not TRUE_DELIVERY.match(c) else []
+        if TRUE_DELIVERY.match(c) or sC45.DELIVER.match(c) or (defs and depth < 3 and c.startswith('__Pyx')):
+            sites.append((c, off, defs))
     if not sites:
         return None
-    res = False
-    for c, off in sites:
+    for c, off, defs in sites:
         if reach(body, off, env) is False:
             continue
-        if c in funcs and depth < 2:
+        if defs:
             lp = body.find('(', off)
             rp = match_paren(body, lp)
             args = [a.strip() for a in split_args(body[lp + 1:rp])] if rp > 0 else []
             verdicts = []
-            for params, fbody in funcs[c]:
+            for params, fbody in defs:
                 env2 = {k: v for k, v in env.items() if k.isupper() or k.startswith('__Pyx_')}
                 for p_, a in zip(params, args):
                     a = a.strip('() ')
@@ -174,11 +201,25 @@ def delivers(body, env, ctx=None, depth=0):
                     elif re.fullmatch(r'\d+', a):
                         env2[p_] = int(a)
                 verdicts.append(delivers(fbody, env2, ctx, depth + 1))
-            if any(v is None or v for v in verdicts):
+            if any(verdicts):           # a resolved body without any delivering call (None) delivers nothing
                 return True
             continue
         return True
-    return res
+    return False
+
+
+def flag_param_indices(ctx, ems):
+    """{macro name: {index of the macro argument into which a put_trace_* method writes a value derived from nogil / gil_owned,
+    counted from the right end (negative) when an earlier argument expands to several C arguments}}"""
+    from . import sC44
+    FILE_I, LINE_I = sC44.scanner_pos_indices(ctx)
+    out = {}
+    for ccw, fn, n, macro, args, exprs, env, params in ems:
+        multi = [k for k, a_ in enumerate(args) if a_.count(sC45.PHX) > 1]
+        for i, e in enumerate(exprs):
+            if e is not None and sC45.python_arg_kind(e, env, LINE_I, params) == 'nogil':
+                out.setdefault(macro, set()).add(i - len(args) if multi and i > multi[-1] else i)
+    return out
 
 
 def _emitted_macros(ctx):
@@ -192,13 +233,21 @@ def _emitted_macros(ctx):
     return kinds, ems
 
 
-def _flag_kind(call, fn, env):
+def _flag_kind(call, fn, env, sig=None):
     """what a put_trace_return / put_trace_unwind call site says about the GIL: 'current' (negation of the function state's gil_owned at this
     statement), 'held' (constant false / no flag), or None (cannot tell)"""
     e = None
     for k in call.keywords:
         if k.arg == 'nogil':
             e = k.value
+        elif k.arg is None:
+            return None             # **kwargs
+    if e is None and sig is not None:
+        names = [a.arg for a in sig.args.posonlyargs + sig.args.args][1:]
+        if 'nogil' in names and names.index('nogil') < len(call.args):
+            e = call.args[names.index('nogil')]
+    if any(isinstance(a, ast.Starred) for a in call.args):
+        return None
     if e is None:
         return 'held'
     e = deref(e, env)
@@ -220,12 +269,14 @@ def rule_closegate(ctx):
     if not starts or not closes:
         raise AnalysisError('C45-CLOSEGATE: the start / closing trace macros emitted by CCodeWriter.put_trace_* were not found')
     macro_kind = {m: k for k in ('ret', 'unwind') for m in kinds.get(k, ())}
+    flag_idx = flag_param_indices(ctx, ems)
 
     # ---- compiler side: which (function entered without GIL, GIL released at the statement) pairs reach each closing method
     method_of = {v: k for k, v in EVENT_METHODS.items()}
     pairs = {'ret': set(), 'unwind': set()}
     where = {'ret': {}, 'unwind': {}}
     n_sites = 0
+    ccw_methods = ctx.index.cls('Code', 'CCodeWriter').methods
     for m, qn, owner, fn in trace_sites(ctx):
         calls = [c for c in walk_no_nested(fn) if isinstance(c, ast.Call) and isinstance(c.func, ast.Attribute)]
         owns_scope = any(c.func.attr == method_of['start'] for c in calls)
@@ -239,7 +290,7 @@ def rule_closegate(ctx):
                 # the function epilogue: the flag is the state the function was entered with, or "held" after it took the GIL itself
                 ps = {(0, 0), (1, 1), (1, 0)}
             else:
-                fk = _flag_kind(c, fn, env)
+                fk = _flag_kind(c, fn, env, ccw_methods.get(c.func.attr))
                 if fk is None:
                     r.info('%s.%s: the nogil flag of %s (%s) is not derived from a gil_owned value; site not modelled' % (
                         m.short, qn, c.func.attr, node_src(c, 80)))
@@ -259,21 +310,24 @@ def rule_closegate(ctx):
             by_cfg.setdefault(cfg, {}).setdefault(name, []).append(d)
     n_cfg = 0
     for cfg, defs in sorted(by_cfg.items()):
-        def table(d):
+        def table(d, name):
             body = strip_c_comments(d.body or '')
             params = [_pname(p) for p in d.params]
             flags = gil_flag_params(params, body)
+            for j in flag_idx.get(name, ()):
+                if -len(params) <= j < len(params) and params[j] not in flags:
+                    flags.append(params[j])
             t = {}
             for f, c in itertools.product((0, 1), repeat=2):
                 env = {'CYTHON_TRACE_NOGIL': c, '__Pyx_use_tracing': 1}
                 for p in flags:
                     env[p] = f
                 t[(f, c)] = delivers(body, env, ctx)
-            return t, flags
+            return t, [p for p in flags if re.search(r'\b%s\b' % re.escape(p), body)]
         start_tabs = []
         for name in sorted(starts):
             for d in defs.get(name, []):
-                t, flags = table(d)
+                t, flags = table(d, name)
                 if any(v for v in t.values()):
                     start_tabs.append((name, t, flags))
         if not start_tabs:
@@ -286,7 +340,7 @@ def rule_closegate(ctx):
             return any(t[(f, c)] for _, t, flags in start_tabs if flags or f == 0)
         for name in sorted(closes):
             for d in defs.get(name, []):
-                t, flags = table(d)
+                t, flags = table(d, name)
                 key = 'Profile.%s:%s:close-gate' % (name, cfg_text)
                 if all(v is None for v in t.values()):
                     raise AnalysisError('%s (`%s`): the configuration delivers start events but no delivering call was found in this closing macro' % (name, cfg_text))
@@ -477,6 +531,78 @@ def _const_of_write(s):
     return None
 
 
+def _no_early_return(stmts):
+    """`if c: return` followed by the rest  ->  `if not c: <rest>` (bare returns only); a trailing bare return is dropped"""
+    out = []
+    for i, s in enumerate(stmts):
+        if isinstance(s, ast.Return) and s.value is None:
+            return out
+        if isinstance(s, ast.If) and not s.orelse and len(s.body) == 1 and isinstance(s.body[0], ast.Return) and s.body[0].value is None:
+            rest = _no_early_return(stmts[i + 1:])
+            if rest:
+                n = ast.If(test=ast.UnaryOp(op=ast.Not(), operand=s.test), body=rest, orelse=[])
+                out.append(ast.copy_location(n, s))
+            return out
+        out.append(s)
+    return out
+
+
+def inline_self_helpers(ctx, owner, fn, needles, depth=0):
+    """copy of fn in which statements `self.<helper>(<names>)` are replaced by the helper's body (early returns normalised, parameters
+    substituted) when the helper mentions one of the needles - `extract method` undone; also delegates to pC37.inline_helpers"""
+    from .pC37 import _Subst
+    ix = ctx.index
+    fn = inline_helpers(ctx, owner, fn, needles)
+    if depth > 2:
+        return fn
+    changed = [False]
+
+    def simple(e):
+        return isinstance(e, (ast.Name, ast.Constant)) or (isinstance(e, ast.Attribute) and simple(e.value))
+
+    def expand(stmts):
+        out = []
+        for s in stmts:
+            c = s.value if isinstance(s, ast.Expr) and isinstance(s.value, ast.Call) else None
+            if c is not None and is_self_attr(c.func) and c.func.attr != fn.name and all(simple(a) for a in c.args) and not c.keywords:
+                r = ix.find_method(owner, c.func.attr)
+                if r is not None:
+                    h = r[1]
+                    src = ast.unparse(h)
+                    body = _no_early_return([b for b in h.body if not (isinstance(b, ast.Expr) and isinstance(b.value, ast.Constant))])
+                    params = [a.arg for a in h.args.posonlyargs + h.args.args][1:]
+                    if any(x in src for x in needles) and len(params) == len(c.args) and not h.args.vararg and not h.args.kwarg and \
+                            not any(isinstance(x, (ast.Return, ast.Yield, ast.YieldFrom)) for b in body for x in ast.walk(b)):
+                        mapping = dict(zip(params, c.args))
+                        assigned = {x.id for b in body for x in ast.walk(b) if isinstance(x, ast.Name) and isinstance(x.ctx, ast.Store)}
+                        if not (assigned & set(params)):
+                            mapping.update({a: '%s__%s' % (a, h.name) for a in assigned})
+                            new = [_Subst(mapping).visit(ast.parse(ast.unparse(b)).body[0]) for b in body]
+                            for b in new:
+                                for x in ast.walk(b):
+                                    if hasattr(x, 'lineno'):
+                                        x.lineno = getattr(x, 'lineno', 1) + h.lineno - 1
+                            out.extend(new or [ast.copy_location(ast.Pass(), s)])
+                            changed[0] = True
+                            continue
+            for field in ('body', 'orelse', 'finalbody'):
+                sub = getattr(s, field, None)
+                if isinstance(sub, list) and sub and isinstance(sub[0], ast.stmt):
+                    setattr(s, field, expand(sub))
+            out.append(s)
+        return out
+    copy = ast.parse(ast.unparse(fn)).body[0]
+    for a_, b_ in zip(ast.walk(copy), ast.walk(fn)):
+        if type(a_) is type(b_) and hasattr(b_, 'lineno'):
+            a_.lineno, a_.col_offset = b_.lineno, b_.col_offset
+            a_.end_lineno, a_.end_col_offset = getattr(b_, 'end_lineno', b_.lineno), getattr(b_, 'end_col_offset', 0)
+    copy.body = expand(copy.body)
+    if not changed[0]:
+        return fn
+    ast.fix_missing_locations(copy)
+    return inline_self_helpers(ctx, owner, copy, needles, depth + 1)
+
+
 def interceptors(ctx):
     """code generators that run a second child on the intercepted return path: [(module, qualname, owner, fn (helpers inlined), details)]"""
     def build():
@@ -496,7 +622,7 @@ def interceptors(ctx):
                         src_has = True
                 if not src_has or owner is None:
                     continue
-                fn = inline_helpers(ctx, owner, fn0, ('put_trace_return', 'funcstate', 'put_goto', 'generate_execution_code'))
+                fn = inline_self_helpers(ctx, owner, fn0, ('put_trace_return', 'funcstate', 'put_goto', 'generate_execution_code'))
                 lin = _linear(fn)
                 pos = {id(n): i for i, n in enumerate(lin)}
                 par = _parents(fn)
@@ -657,6 +783,12 @@ def defer_problems(ctx, m, qn, owner, fn, d, emitters):
                 if not on_ret and g.args[0].id not in d['retsaved']:
                     probs.append(('deferred-event-any-exit', e.lineno, '%s reports the deferred return event for every intercepted exit (break / continue as well), not only when '
                                   'the saved label is the return label' % what))
+            eg = {(t, v) for t, v in facts if re.fullmatch(r'self\.\w+', t)}
+            bg = {(t, v) for t, v in self_guards(bs) if re.fullmatch(r'self\.\w+', t)}
+            if eg != bg:
+                probs.append(('deferral-guards-differ', e.lineno, '%s marks the function state under %s but reports the deferred event under %s: for a (sub)class where the two '
+                              'differ return statements are silenced and nobody reports the event, or it is reported twice' % (
+                                  what, sorted(bg) or 'no condition', sorted(eg) or 'no condition')))
             for t, v in facts:
                 if t.startswith('self.') and re.fullmatch(r'self\.\w+', t):
                     ca = ix.find_class_attr(owner, t[5:])
@@ -717,7 +849,7 @@ def rule_defer(ctx):
             key = '%s.%s:defers-on:%s' % (m.short, qn, A)
             env = local_assigns(fn)
             cubes = sC45.silent_return_conditions(fn)
-            hit = [c for c in cubes if len(c) == 1 and _means_set(next(iter(c))[0], next(iter(c))[1], A, env) is True]
+            hit = [c for c, cfgs in cubes.items() if len(c) == 1 and _means_set(next(iter(c))[0], next(iter(c))[1], A, env) is True and len(cfgs) == len(sC45.CONFIGS)]
             r.inst(key, sample='%s is silent when %s' % (qn, sorted(sC45._cube_text(c) for c in cubes)))
             if not hit:
                 mentions = [c for c in cubes if any(_means_set(t, v, A, env) is not None for t, v in c)]
@@ -919,7 +1051,7 @@ def rule_skipstart(ctx):
                           'start itself - it does so on its error path too, so a raising call is closed twice' % (
                               fn.name, ' / '.join(sorted(flag_texts)), macro, sorted(sel) or 'always',
                               ', '.join('%s.%s' % (u[0].short, u[1]) for u in users) or '-', missing))
-    # ---- (B) function nodes built around a body with tracing switched off
+    # ---- (B) function nodes with a marker: traced by the function node  <=>  body compiled with tracing on
     n_over = 0
     for ms in GEN_MODULES:
         try:
@@ -927,51 +1059,77 @@ def rule_skipstart(ctx):
         except AnalysisError:
             continue
         for qn, owner, fn in ix.functions_of(m):
-            off_names = {}
-            for s in walk_no_nested(fn):
-                if isinstance(s, ast.Assign) and len(s.targets) == 1 and isinstance(s.targets[0], ast.Name) and isinstance(s.value, ast.Call) and \
-                        isinstance(s.value.func, ast.Attribute) and s.value.func.attr == 'for_directives':
-                    kw = {k.arg: k.value for k in s.value.keywords if k.arg in ('profile', 'linetrace')}
-                    if kw and all(isinstance(v, ast.Constant) and not v.value for v in kw.values()):
-                        off_names[s.targets[0].id] = sorted(kw)
-            if not off_names:
+            ctor_calls = [c for c in walk_no_nested(fn) if isinstance(c, ast.Call) and isinstance(c.func, (ast.Name, ast.Attribute)) and
+                          any(k.arg == 'body' for k in c.keywords)]
+            if not ctor_calls:
                 continue
-            for c in walk_no_nested(fn):
-                if not (isinstance(c, ast.Call) and isinstance(c.func, (ast.Name, ast.Attribute))):
-                    continue
-                body_kw = [k for k in c.keywords if k.arg == 'body' and any(isinstance(x, ast.Name) and x.id in off_names for x in ast.walk(k.value))]
-                if not body_kw:
-                    continue
+            off_names = {}          # local name -> directives switched off for the node it holds
+            for s_ in walk_no_nested(fn):
+                if isinstance(s_, ast.Assign) and len(s_.targets) == 1 and isinstance(s_.targets[0], ast.Name) and isinstance(s_.value, ast.Call) and \
+                        isinstance(s_.value.func, ast.Attribute) and s_.value.func.attr == 'for_directives':
+                    off = sorted(k.arg for k in s_.value.keywords if k.arg in ('profile', 'linetrace') and isinstance(k.value, ast.Constant) and not k.value.value)
+                    unknown = [k.arg for k in s_.value.keywords if k.arg in ('profile', 'linetrace') and not isinstance(k.value, ast.Constant)] + \
+                              [k for k in s_.value.keywords if k.arg is None]
+                    if unknown:
+                        r.info('%s.%s: for_directives(...) with a computed profile / linetrace value; not modelled' % (m.short, qn))
+                        continue
+                    off_names[s_.targets[0].id] = off
+            for c in ctor_calls:
                 cname = c.func.id if isinstance(c.func, ast.Name) else c.func.attr
-                K = None
-                for cand in ix.classes_by_name.get(cname, []):
-                    K = cand
-                if K is None:
-                    r.info('%s.%s: %s(body=<tracing switched off>) - class not resolved' % (m.short, qn, cname))
+                cands = ix.classes_by_name.get(cname, [])
+                if len(cands) != 1:
                     continue
-                n_over += 1
-                markers = [k.arg for k in c.keywords if k.arg != 'body' and _truthy_const(k.value) and ix.find_class_attr(K, k.arg) is not None and
-                           isinstance(ix.find_class_attr(K, k.arg)[1], ast.Constant) and not ix.find_class_attr(K, k.arg)[1].value]
-                # the generator(s) that open the trace scope for nodes of class K
+                K = cands[0]
                 gens = [(gm, gq, go, gf) for gm, gq, go, gf in trace_sites(ctx)
                         if go is not None and go in ix.mro(K) and any(isinstance(x, ast.Call) and isinstance(x.func, ast.Attribute) and x.func.attr == method_of['start']
                                                                       for x in walk_no_nested(gf))]
+                if not gens:
+                    continue        # not a function node
+                markers = []
+                for k in c.keywords:
+                    if k.arg and k.arg != 'body' and _truthy_const(k.value):
+                        ca = ix.find_class_attr(K, k.arg)
+                        if ca is not None and isinstance(ca[1], ast.Constant) and not ca[1].value:
+                            markers.append(k.arg)
+                body_kw = next(k for k in c.keywords if k.arg == 'body')
+                off = set()
+                for x in ast.walk(body_kw.value):
+                    if isinstance(x, ast.Name) and x.id in off_names:
+                        off |= set(off_names[x.id])
+                if not markers and not off:
+                    continue
+                n_over += 1
                 key = '%s.%s:untraced-body:%s(%s)' % (m.short, qn, cname, ','.join(markers))
-                r.inst(key, sample='%s.%s builds %s(%s) around a body compiled with %s switched off; scope opened by %s' % (
-                    m.short, qn, cname, ', '.join(markers), '/'.join(off_names[next(iter(off_names))]), ['%s.%s' % (g[0].short, g[1]) for g in gens]))
-                for gm, gq, go, gf in gens:
-                    genv = local_assigns(gf)
-                    for x in walk_no_nested(gf):
-                        if not (isinstance(x, ast.Call) and isinstance(x.func, ast.Attribute) and x.func.attr == method_of['start']):
-                            continue
-                        if _dead_for_markers(gf, x, markers, genv):
-                            continue
-                        r.violate(key, gm.rel, x.lineno,
-                                  '%s.%s wraps the body of the %s it builds (%s) in a directives node that switches %s off, so the return statement in that body reports no '
-                                  'return event; %s.%s nevertheless opens a trace scope for such a node (the start event is not excluded for %s): the function reports a start '
-                                  'event without a return event on its success path and relies on its callee to close it, while its own error path closes it as well' % (
-                                      m.short, qn, cname, ', '.join('%s=1' % k for k in markers) or 'no marker', ' and '.join(off_names[next(iter(off_names))]),
-                                      gm.short, gq, ' / '.join('self.' + k for k in markers) or 'any marker'))
+                starts_ = [(gm, gq, gf, x) for gm, gq, go, gf in gens for x in walk_no_nested(gf)
+                           if isinstance(x, ast.Call) and isinstance(x.func, ast.Attribute) and x.func.attr == method_of['start']]
+                dead = bool(markers) and all(_dead_for_markers(gf, x, markers, local_assigns(gf)) for gm, gq, gf, x in starts_)
+                if dead:
+                    for gm, gq, go, gf in gens:
+                        for x in walk_no_nested(gf):
+                            if isinstance(x, ast.Call) and isinstance(x.func, ast.Attribute) and x.func.attr in EVENT_METHODS and x.func.attr != method_of['start'] \
+                                    and not _dead_for_markers(gf, x, markers, local_assigns(gf)):
+                                r.violate('%s.%s:%s:without-start:%s' % (gm.short, gq, x.func.attr, ','.join(markers)), gm.rel, x.lineno,
+                                          '%s.%s never reports the start event for a node with %s, but %s is still emitted for it: a closing event for an activation that was '
+                                          'never opened' % (gm.short, gq, ' / '.join('self.' + k for k in markers), x.func.attr))
+                                break
+                r.inst(key, sample='%s.%s builds %s(%s) around a body compiled with %s switched off; scope opened by %s: %s' % (
+                    m.short, qn, cname, ', '.join(markers), sorted(off) or 'nothing', ['%s.%s' % (g[0].short, g[1]) for g in gens],
+                    'never for this marker' if dead else 'also for such nodes'))
+                if off and not dead:
+                    gm, gq, gf, x = next((g for g in starts_ if not _dead_for_markers(g[2], g[3], markers, local_assigns(g[2]))), starts_[0])
+                    r.violate(key, gm.rel, x.lineno,
+                              '%s.%s wraps the body of the %s it builds (%s) in a directives node that switches %s off, so the return statement in that body reports no '
+                              'return event; %s.%s nevertheless opens a trace scope for such a node (the start event is not excluded for %s): the function reports a start '
+                              'event without a return event on its success path and relies on its callee to close it, while its own error path closes it as well' % (
+                                  m.short, qn, cname, ', '.join('%s=1' % k for k in markers) or 'no marker', ' and '.join(sorted(off)),
+                                  gm.short, gq, ' / '.join('self.' + k for k in markers) or 'any marker'))
+                elif dead and off != {'profile', 'linetrace'}:
+                    r.violate('%s.%s:traced-body:%s(%s)' % (m.short, qn, cname, ','.join(markers)), m.rel, c.lineno,
+                              '%s.%s builds a %s with %s, for which %s never opens a trace scope, but compiles its body with %s: the return statement in that body reports '
+                              'a return event (under %s) for an activation that was never opened' % (
+                                  m.short, qn, cname, ', '.join('%s=1' % k for k in markers), ' / '.join('%s.%s' % (g[0].short, g[1]) for g in gens),
+                                  'only %s switched off' % ' and '.join(sorted(off)) if off else 'the directives of the surrounding code',
+                                  ' / '.join(sorted({'profile', 'linetrace'} - off))))
     r.inst('overrides', sample='%d function nodes built around a body with tracing switched off' % n_over, nontrivial=bool(n_over))
     # embedded examples
     pch = type('D', (), {})()
